@@ -1,4 +1,5 @@
-SPECIFICATION Spec
+INIT GInit
+NEXT Next
 CONSTANTS
   W = 3
   KeyList <- KL3W
@@ -8,5 +9,7 @@ CONSTANTS
   MaxOps = 2
   Depth = 2
   MaxSnaps = 2
+  InitArr <- IA0
+  InitFlushed = FALSE
   HistOn = TRUE
 INVARIANT Emit
